@@ -47,6 +47,7 @@ Bad(e) ==
                             /\ cl.res \in {"ok:true", "ok:false"}
                             /\ \A j \in 1..Len(e.chars) : inClass(cl.cid, e.chars[j]) => (cl.res = "ok:true") = truth[j]
                        ELSE ~cl.valid /\ cl.res = "err:BadClassId">>})
+    [] e.op = "closure_capped" -> Failed({<<"C19:terminates", e.terminated>>})
     [] e.op \in {"closure", "closure_big"} ->
          LET n == e.len
              res(name) == LET k == CHOOSE k \in 1..Len(e.tries) : e.tries[k].n = name IN e.tries[k]
